@@ -1821,8 +1821,8 @@ func (this *decodingTask) decode(res *decodingTaskResult) {
 		// Unblock other tasks
 		if res.err != nil || (res.decoded == 0 && res.skipped == false) {
 			atomic.StoreInt32(this.processedBlockID, _CANCEL_TASKS_ID)
-		} else if atomic.LoadInt32(this.processedBlockID) == this.currentBlockID-1 {
-			atomic.StoreInt32(this.processedBlockID, this.currentBlockID)
+		} else {
+			atomic.CompareAndSwapInt32(this.processedBlockID, this.currentBlockID-1, this.currentBlockID)
 		}
 
 		this.wg.Done()
@@ -1885,8 +1885,9 @@ func (this *decodingTask) decode(res *decodingTaskResult) {
 	}
 
 	// After completion of the bitstream reading, increment the block id.
-	// It unblocks the task processing the next block (if any)
-	atomic.StoreInt32(this.processedBlockID, this.currentBlockID)
+	// It unblocks the task processing the next block (if any).
+	// Never overwrite a cancel request posted by a failed task.
+	atomic.CompareAndSwapInt32(this.processedBlockID, this.currentBlockID-1, this.currentBlockID)
 
 	// Check if the block must be skipped
 	if v, hasKey := this.ctx["from"]; hasKey {
